@@ -74,6 +74,14 @@ def generate(rng, tier):
                     tok = fnum(q) if (q.denominator != 1 or rng.random() < 0.5) else f"i{q.numerator}"
                     tag = "spline-knot" if q in xs else ("spline-outside" if q < xs[0] or q > xs[-1] else "spline-mid")
                     yield f"cal {sx(c)} {tok}", tag
+    # a NaN raw value (a float field may hold one) lies in no spline's range: a calibration error, whatever `extrapolate`
+    for _ in range(6 if tier == "quick" else 200):
+        xs, ys, pts = spline_sx(rng)
+        c = ["spline", str(rng.randrange(2)), B(rng.random() < 0.5)] + [[fnum(a), fnum(b)] for a, b in pts]
+        yield f"cal {sx(c)} {V(float('nan'))}", "spline-nan"
+        # … and decoded from the bits of a float field that carries the spline
+        enc = ["float", "32", S("IEEE754"), S(MSB), [c, []]]
+        yield f"ptype {sx(['pt', S('T'), 'plain', enc])} {hx(bytes([0x7F, 0xC0, 0, 0]))} 0 ()", "spline-nan"
     for _ in range(5):
         c = ["spline", "0", "0", [fnum(Fraction(1)), fnum(Fraction(2))]]
         yield f"cal {sx(c)} i1", "spline-single-point"
@@ -251,6 +259,9 @@ def oracle(line, out):
     t = parse_sx(line)
     try:
         if t[0] == "cal":
+            if t[2] == "fnan":
+                # NaN is inside no closed range of points: a spline fails with a calibration error
+                return (out == "err calibration") if t[1][0] == "spline" else None
             r = ref_cal(t[1], F(t[2]))
             if r is None:
                 return None
